@@ -513,7 +513,85 @@ pub(crate) mod util {
     }
 }
 
+/// The parser and the AST builders recurse once per level of bracket nesting; refuse input that
+/// would exhaust the stack instead of dying on it.
+const MAX_BRACKET_NESTING: usize = 256;
+
+/// Returns the line and column of the first bracket that is nested deeper than `limit`,
+/// ignoring brackets inside string literals and comments.
+fn first_bracket_deeper_than(input_str: &str, limit: usize) -> Option<(usize, usize)> {
+    let mut chars = input_str.chars().peekable();
+    let (mut line, mut col, mut depth) = (1, 0, 0_usize);
+
+    while let Some(c) = chars.next() {
+        col += 1;
+
+        match c {
+            '\n' => {
+                line += 1;
+                col = 0;
+            }
+            '"' => {
+                // a string literal ends at the first quote that is not escaped as `\"`
+                let mut previous = c;
+                for s in chars.by_ref() {
+                    col += 1;
+                    if s == '\n' {
+                        line += 1;
+                        col = 0;
+                    }
+                    if s == '"' && previous != '\\' {
+                        break;
+                    }
+                    previous = s;
+                }
+            }
+            '#' => {
+                let mut hashes = 1;
+                while chars.peek() == Some(&'#') && hashes < 3 {
+                    chars.next();
+                    col += 1;
+                    hashes += 1;
+                }
+
+                let mut run = 0;
+                for s in chars.by_ref() {
+                    col += 1;
+                    if s == '\n' {
+                        line += 1;
+                        col = 0;
+                        if hashes < 3 {
+                            break; // line comment
+                        }
+                    }
+                    run = if s == '#' { run + 1 } else { 0 };
+                    if hashes == 3 && run == 3 {
+                        break; // block comment
+                    }
+                }
+            }
+            '(' | '[' | '{' => {
+                depth += 1;
+                if depth > limit {
+                    return Some((line, col));
+                }
+            }
+            ')' | ']' | '}' => depth = depth.saturating_sub(1),
+            _ => (),
+        }
+    }
+
+    None
+}
+
 pub(crate) fn root_node_from_str(input_str: &str, user_data: Rc<AssocFileData>) -> Result<Node> {
+    if let Some((line, col)) = first_bracket_deeper_than(input_str, MAX_BRACKET_NESTING) {
+        bail!(
+            " --> {}:{line}:{col}\n  = brackets are nested more than {MAX_BRACKET_NESTING} levels deep here, which this compiler does not support",
+            user_data.get_source_file_name()
+        )
+    }
+
     let x = util::parse_with_userdata_features(Rule::file, input_str, user_data);
 
     x.and_then(|x| x.single().map_err(Box::new))
